@@ -314,8 +314,10 @@ namespace Pistache
 
         Entry* pop() override
         {
-            auto ret = Queue<T>::pop();
-
+            // Consume the readiness notification BEFORE looking at the queue. In
+            // the other order an item pushed (and signalled) between a failed pop
+            // and the drain would stay queued with its notification consumed, and
+            // the event loop would never be woken up for it.
             if (isBound())
             {
                 uint64_t val;
@@ -335,7 +337,7 @@ namespace Pistache
                 }
             }
 
-            return ret;
+            return Queue<T>::pop();
         }
 
         Polling::Tag tag() const
